@@ -2949,6 +2949,41 @@ _dbus_auth_dump_supported_mechanisms (DBusString *buffer)
   return TRUE;
 }
 
+#ifdef DBUS_VERIF
+/* Verification hook H2 (read-only): a canonical description of the state of
+ * a DBusAuth object that is not visible through the public accessors, so
+ * that an explorer can tell apart states that differ only in it. The
+ * challenge is random and therefore left out. */
+dbus_bool_t
+_dbus_verif_auth_dump (DBusAuth   *auth,
+                       DBusString *out)
+{
+  if (!_dbus_string_append_printf (out, "state=%s mech=%s identity_len=%d context_len=%d cookie_id=%d mechs_sent=%d asked_initial=%d fd_possible=%d fd_negotiated=%d incoming=%d outgoing=%d",
+                                   auth->state->name,
+                                   auth->mech ? auth->mech->mechanism : "-",
+                                   _dbus_string_get_length (&auth->identity),
+                                   _dbus_string_get_length (&auth->context),
+                                   auth->cookie_id,
+                                   (int) auth->already_got_mechanisms,
+                                   (int) auth->already_asked_for_initial_response,
+                                   (int) auth->unix_fd_possible,
+                                   (int) auth->unix_fd_negotiated,
+                                   _dbus_string_get_length (&auth->incoming),
+                                   _dbus_string_get_length (&auth->outgoing)))
+    return FALSE;
+  if (!_dbus_string_append (out, " authorized=[") ||
+      !_dbus_credentials_to_string_append (auth->authorized_identity, out) ||
+      !_dbus_string_append (out, "] desired=[") ||
+      !_dbus_credentials_to_string_append (auth->desired_identity, out) ||
+      !_dbus_string_append (out, "]"))
+    return FALSE;
+  if (DBUS_AUTH_IS_SERVER (auth) &&
+      !_dbus_string_append_printf (out, " failures=%d", DBUS_AUTH_SERVER (auth)->failures))
+    return FALSE;
+  return TRUE;
+}
+#endif
+
 /** @} */
 
 /* tests in dbus-auth-util.c */
